@@ -80,7 +80,8 @@ def search(ctx, hints):
     cwd = ctx.scratch('c06s')
     ops = os.path.join(ctx.work, 'c06s.ops')
     obs = os.path.join(ctx.work, 'c06s.obs')
-    env = dict(VERIF_SEED=str(ctx.seed), VERIF_TIER=ctx.tier, GOMEMLIMIT='8GiB')
+    env = dict(VERIF_SEED=str(ctx.seed), VERIF_TIER=ctx.tier, GOMEMLIMIT='8GiB',
+               VERIF_CORPUS=os.path.join(vlib.VERIF, 'corpus', ctx.pid))
     rc, so, se = vlib.run([binp, 'mode=search', 'n=%d' % n, 'ops=' + ops, 'obs=' + obs], cwd=cwd, env=env, timeout=1500)
     import shutil
     shutil.rmtree(cwd, ignore_errors=True)
